@@ -103,6 +103,9 @@ def run(S):
         dn = dict(orthogonal=True, ny_inner_lower_divertor=4, ny_outer_lower_divertor=6, psinorm_pf_lower=0.93, y_boundary_guards=1)
         dn_m = dict(orthogonal=True, ny_inner_upper_divertor=4, ny_outer_upper_divertor=6, psinorm_pf_upper=0.93, y_boundary_guards=1)
         cfgs += [gb.cfg("udn", dn, label="udn-asym", **P), gb.cfg("udn", dn_m, label="udn-asym-mirrored(LDN)", mirror=True, **P)]
+    if S.tier == "thorough":
+        # option cap_Bp_ylow_xpoint under psi -> -psi (F22: the cap compared signed values)
+        cfgs += [gb.cfg("lsn", dict(asym, cap_Bp_ylow_xpoint=True), label="lsn-asym-capBp", **P), gb.cfg("lsn", dict(asym, cap_Bp_ylow_xpoint=True), psi_sign=-1.0, label="lsn-asym-capBp-negpsi", **P)]
     res = gb.generate_many(cfgs)
     by = {c["label"]: r for c, r in zip(cfgs, res)}
     rows, bad, refused = [], [], [dict(cfg=c["label"], error=r["error"][:200]) for c, r in zip(cfgs, res) if not r["ok"]]
@@ -125,6 +128,13 @@ def run(S):
         pair(base["label"], mirr["label"], "midplane reflection, lower<->upper options exchanged: reflected grid with y reversed", ymap=rev_map(A), tol_pos=1e-8, tol_rel=1e-8, guard_factor=1.0)
         pair(base["label"], neg["label"], "psi -> -psi: same positions, signs only", ymap=ident(A), tol_pos=2e-7, tol_rel=2e-6, zsign=1.0, psisign=-1.0)
         pair(base["label"], twopi["label"], "psi_divide_twopi: same positions, psi and Bp scaled by 1/2pi", ymap=ident(A), tol_pos=5e-6, tol_rel=5e-5, zsign=1.0, scale_psi=1.0 / (2 * np.pi), skip=("Bxy", "g33", "g_22"))
+    if S.tier == "thorough" and by.get("lsn-asym-capBp", {}).get("ok"):
+        A = by["lsn-asym-capBp"]["data"]
+        pair("lsn-asym-capBp", "lsn-asym-capBp-negpsi", "psi -> -psi with cap_Bp_ylow_xpoint: same positions, signs only", ymap=ident(A), tol_pos=2e-7, tol_rel=2e-6, zsign=1.0, psisign=-1.0)
+        changed = float(np.abs(np.abs(arr(A, "Bpxy", "ylow")) - np.abs(arr(by[base["label"]]["data"], "Bpxy", "ylow"))).max()) if by[base["label"]]["ok"] else None
+        rows.append(dict(what="vacuity guard: the cap changes Bpxy_ylow of the reference grid", max_change=changed))
+        if changed is not None and not changed > 1e-6:
+            S.undecided.append("cap_Bp_ylow_xpoint does not act on the reference grid: the capped pair decides nothing")
     if S.tier == "thorough" and by.get("udn-asym", {}).get("ok"):
         A = by["udn-asym"]["data"]
         k = int(np.array(A["file"]["ny_inner"])) + 2 * A["meta"]["myg"]
